@@ -15,6 +15,7 @@ From SV Require Import Lib.Base Gen.Consts.
 From SV Require Import Model.Seq32 Model.Assembler Model.TcpBuf Model.TcpTypes Model.Tcp.
 From SV Require Import Proofs.TcpSendBase Proofs.TcpLiveBase Proofs.TcpLiveProofs Proofs.TcpLiveMore
   Proofs.TcpLiveProgress.
+From SV Require Proofs.TcpRecvBase.
 
 (* ---------------------------------------------------------------------------------------- *)
 (* dispatch: SND.UNA, the queue, the state                                                   *)
@@ -82,6 +83,16 @@ Proof.
   inversion H; subst. rewrite F1, F2, F3, F4, C1, C4, C5, C7. auto.
 Qed.
 
+Lemma finish_timer_retransmit : forall cx s repr e,
+  s_timer s = TRetransmit e ->
+  s_timer (fst (tcp_dispatch_finish cx s repr false false)) = TRetransmit e.
+Proof.
+  intros cx s repr e Ht. unfold tcp_dispatch_finish. sproj. rewrite Ht.
+  cbn [timer_rewind_keep_alive]. 
+  destruct (repr_segment_len repr >? 0); cbn [andb]; sproj; cbn [timer_is_retransmit negb andb]; sproj;
+    destruct (tcp_state_eqb (s_state s) Closed); cbn [fst]; sproj; reflexivity.
+Qed.
+
 (* a retransmission timer that is not due survives the dispatch *)
 Theorem dispatch_not_due : forall cx s t ok s' res tags e,
   tcp_live_inv s -> s_state s = Established -> s_timeout s = None ->
@@ -118,10 +129,9 @@ Proof.
   destruct (negb ok); [inversion H; subst; exact C2|].
   assert (Ez : z = false) by (destruct z; [specialize (Hz eq_refl); rewrite C2 in Hz; discriminate | reflexivity]).
   assert (Ek : k = false) by (destruct k; [specialize (Hk eq_refl); rewrite C2 in Hk; discriminate | reflexivity]).
-  subst z k. unfold tcp_dispatch_finish in H. sproj in H. rewrite C2 in H.
-  cbn [timer_rewind_keep_alive] in H. sproj in H.
-  destruct (repr_segment_len repr >? 0); cbn [timer_is_retransmit negb andb] in H; sproj in H;
-    destruct (tcp_state_eqb (s_state s3) Closed); inversion H; subst; sproj; reflexivity.
+  subst z k. pose proof (finish_timer_retransmit cx s3 repr e C2) as F.
+  destruct (tcp_dispatch_finish cx s3 repr false false) as (s4, t4). cbn [fst] in F.
+  inversion H; subst. exact F.
 Qed.
 
 (* ---------------------------------------------------------------------------------------- *)
@@ -306,7 +316,8 @@ Proof.
     rewrite ?(seglen_nonempty _ Hl), ?andb_false_r in Ebd.
     rewrite (local_mss_ok cx s1 Hmss1) in Ebd. cbn [obind] in Ebd.
     destruct (control_eqb (r_control r0) CSyn); inversion Ebd; subst; eexists;
-      (split; [reflexivity|]); repeat split; auto; congruence. }
+      (split; [reflexivity|]); (split; [reflexivity|]); (split; [reflexivity|]);
+      (split; [cbn [r_seq_number]; rewrite Hseq; exact D3 | exact Hl]). }
   destruct Hb as (repr & -> & -> & -> & Hseq & Hl).
   cbn [negb] in H.
   pose proof (inv_core_eq _ _ C3 I1) as I3.
@@ -357,7 +368,7 @@ Proof.
   destruct (tcp_window_to_update s) as [[|]|e|]; cbn [obind]; try exact Logic.I.
   destruct (s_timer s) as [k|e| |e d|e] eqn:Ht; try discriminate.
   - (* retransmit *)
-    match goal with |- match Ok ?p with _ => _ end =>
+    match goal with |- match ?p with _ => _ end =>
       assert (Hle : pa_le p e) by (apply pa_le_min_l, pa_le_min_l; cbn; lia); destruct p end;
       cbn in Hle; try tauto. exists e. split; [reflexivity | exact Hle].
   - (* fast retransmit *)
@@ -406,43 +417,66 @@ Proof.
   destruct (Z.gtb_spec al 0); [lia|]. inversion H; subst. sproj. reflexivity.
 Qed.
 
-Lemma timer_class_no_progress : forall t t5 now ka rto aall w len fl,
+Lemma timer_class_no_progress : forall t t5 now ka ka' rto rto' aall w len fl,
   timer_is_zero_window_probe t = false -> (t5 = t \/ t5 = TFastRetransmit) ->
-  let t7 := zwp_fn (timers_fn t5 now ka rto 0 aall) now ka rto 0 w len fl in
+  let t7 := zwp_fn (timers_fn t5 now ka rto 0 aall) now ka' rto' 0 w len fl in
   t7 = t \/ t7 = TFastRetransmit \/ timer_is_idle t7 = true \/ timer_is_zero_window_probe t7 = true.
 Proof.
-  intros t t5 now ka rto aall w len fl Hnz Ht5 t7. unfold t7, zwp_fn, timers_fn.
+  intros t t5 now ka ka' rto rto' aall w len fl Hnz Ht5 t7. unfold t7, zwp_fn, timers_fn.
   destruct Ht5 as [-> | ->];
     destruct t as [k|e| |e d|e]; try discriminate; destruct aall;
     destruct (w =? 0); destruct (len =? 0); destruct fl; cbn; auto 6.
 Qed.
 
-(* the ACK of a segment that passed the ACK check: exactly how much it acknowledges *)
-Lemma ack_len_established : forall s r al aof aall a,
-  s_state s = Established -> u32 (s_local_seq_no s) -> u32 a ->
-  r_ack_number r = Some a -> r_control r <> CRst ->
-  (a = s_local_seq_no s \/ seq_lt (s_local_seq_no s) a = true) ->
-  tcp_process_ack_len s r = Ok (al, aof, aall) ->
-  aof = false /\ 0 <= al /\ (al = 0 <-> a = s_local_seq_no s).
+(* ESTABLISHED: an acknowledgement that passes the ACK check lies in [SND.UNA, SND.UNA + queue] *)
+Lemma u32_sq_self : forall a, u32 a -> a = sq (a + 0).
+Proof. intros a H. rewrite Z.add_0_r. symmetry. apply sq_small. exact H. Qed.
+
+Lemma ack_check_established : forall cx s ip r tg,
+  s_state s = Established -> r_control r <> CRst ->
+  u32 (s_local_seq_no s) -> 0 <= rb_len (s_tx_buffer s) < 2 ^ 31 ->
+  (match r_ack_number r with Some a => u32 a | None => True end) ->
+  tcp_process_ack_check cx s ip r = Ok (Cont tg tt) ->
+  exists d, r_ack_number r = Some (sq (s_local_seq_no s + d)) /\ 0 <= d <= rb_len (s_tx_buffer s).
 Proof.
-  intros s r al aof aall a Hst Hu Ha Hack Hnr Hfr H. unfold tcp_process_ack_len in H.
+  intros cx s ip r tg Hst Hnr Hu Hlen Ha H. unfold tcp_process_ack_check in H. rewrite Hst in H.
+  unfold tcp_sent_syn, tcp_sent_fin in H. rewrite Hst in H. cbn [b2z] in H.
+  destruct (r_control r) eqn:Hc; try congruence;
+    destruct (r_ack_number r) as [a|] eqn:Hack; try discriminate.
+  all: rewrite (seq_add_zero _ Hu) in H; change (0 + 0) with 0 in H; rewrite Z.add_0_r in H.
+  all: destruct (seq_lt a (s_local_seq_no s)) eqn:Hlt; [discriminate|].
+  all: destruct (seq_gt a (seq_add (s_local_seq_no s) (rb_len (s_tx_buffer s)))) eqn:Hgt;
+       [destruct (tcp_challenge_ack_reply cx s ip r); discriminate|].
+  all: set (d := seq_sdiff a (s_local_seq_no s)).
+  all: assert (Hd : 0 <= d < 2 ^ 31)
+         by (unfold d; unfold seq_lt in Hlt; pose proof (TcpRecvBase.seq_sdiff_range a (s_local_seq_no s));
+             change (2 ^ 31) with 2147483648; lia).
+  all: assert (Ea : a = sq (s_local_seq_no s + d))
+         by (unfold d; rewrite (TcpRecvBase.seq_norm_of_sdiff a (s_local_seq_no s)) at 1; [reflexivity|];
+             unfold u32 in Ha; change (2 ^ 32) with 4294967296 in Ha; lia).
+  all: exists d; split; [rewrite Ea; reflexivity|].
+  all: rewrite Ea, seq_add_raw in Hgt;
+       rewrite seq_gt_sq in Hgt by (change (2 ^ 31) with 2147483648 in *; lia); lia.
+Qed.
+
+Lemma ack_len_established : forall s r al aof aall d,
+  s_state s = Established -> u32 (s_local_seq_no s) -> 0 <= d < 2 ^ 31 ->
+  r_ack_number r = Some (sq (s_local_seq_no s + d)) -> r_control r <> CRst ->
+  tcp_process_ack_len s r = Ok (al, aof, aall) ->
+  aof = false /\ al = d.
+Proof.
+  intros s r al aof aall d Hst Hu Hd Hack Hnr H. unfold tcp_process_ack_len in H.
   unfold tcp_sent_syn, tcp_sent_fin in H. rewrite Hst, Hack in H.
   assert (Hc : control_eqb (r_control r) CRst = false) by (destruct (r_control r); try reflexivity; congruence).
   rewrite Hc in H. cbn [b2z andb] in H. rewrite (seq_add_zero _ Hu) in H.
-  destruct Hfr as [-> | Hlt].
-  - rewrite (seq_lt_false_ge _ _ (seq_lt_irrefl _)), seq_sub_self in H. cbn [obind] in H.
-    inversion H; subst. split; [reflexivity|]. split; [lia|]. tauto.
-  - assert (Hge : seq_ge a (s_local_seq_no s) = true).
-    { revert Hlt. sequ. intros Hlt.
-      destruct (Z.ltb_spec ((s_local_seq_no s - a) mod 4294967296) 2147483648);
-      destruct (Z.ltb_spec ((a - s_local_seq_no s) mod 4294967296) 2147483648); lia. }
-    rewrite Hge in H. obind_inv H. inversion H; subst.
-    split; [reflexivity|].
-    revert Hlt E. sequ. intros Hlt E.
-    destruct (Z.ltb_spec ((s_local_seq_no s - a) mod 4294967296) 2147483648);
-    destruct (Z.ltb_spec ((a - s_local_seq_no s) mod 4294967296) 2147483648);
-    repeat match type of E with context [if ?b then _ else _] => destruct b eqn:? end;
-    try discriminate; inversion E; subst; split; try lia; split; intros; try lia.
+  set (u := s_local_seq_no s) in *.
+  assert (Hge : seq_ge (sq (u + d)) u = true).
+  { rewrite (u32_sq_self u Hu) at 2. rewrite seq_ge_sq by (change (2 ^ 31) with 2147483648 in *; lia). lia. }
+  assert (Hsub : seq_sub (sq (u + d)) u = Ok d).
+  { rewrite (u32_sq_self u Hu) at 2. rewrite seq_sub_sq by (change (2 ^ 31) with 2147483648 in *; lia).
+    destruct (Z.ltb_spec d 0); [lia|]. f_equal. lia. }
+  rewrite Hge, Hsub in H. cbn [obind] in H.
+  inversion H; subst. split; reflexivity.
 Qed.
 
 (* SENDER, ANY SEGMENT.  An ESTABLISHED socket (no probe timer running) processes any parsed segment
@@ -453,13 +487,14 @@ Theorem process_sender_step : forall cx s ip r s' reply tags,
   ctx_ok cx -> seg_ok r -> tcp_live_inv s ->
   s_state s = Established -> s_state s' = Established ->
   timer_is_zero_window_probe (s_timer s) = false ->
+  rb_len (s_tx_buffer s) < 2 ^ 31 ->
   tcp_process cx s ip r = Ok (s', reply, tags) ->
   rb_len (s_tx_buffer s') < rb_len (s_tx_buffer s) \/
   (s_local_seq_no s' = s_local_seq_no s /\ s_tx_buffer s' = s_tx_buffer s /\
    (s_timer s' = s_timer s \/ s_timer s' = TFastRetransmit \/ timer_is_idle (s_timer s') = true \/
     timer_is_zero_window_probe (s_timer s') = true)).
 Proof.
-  intros cx s ip r s' reply tags Hcx Hseg I Hst Hst' Hnz H. unfold tcp_process in H.
+  intros cx s ip r s' reply tags Hcx Hseg I Hst Hst' Hnz Htxb H. unfold tcp_process in H.
   destruct (negb (tcp_accepts s ip r)); [discriminate|].
   assert (Hcore : forall q, core_eq s q ->
             s_local_seq_no q = s_local_seq_no s /\ s_tx_buffer q = s_tx_buffer s /\
@@ -489,12 +524,14 @@ Proof.
     destruct (update_remote_spec _ _ _ _ _ _ H4 W3 Hseg) as (W4 & S4 & T4 & U4 & N4 & _ & L4).
     obind_inv H. destruct a as (s5, t5). rename E into H5.
     destruct (dup_ack_spec _ _ _ _ _ _ _ H5 W4 Hseg) as (W5 & S5 & B5 & _ & _ & T5 & Seq5).
-    destruct (ack_check_fresh _ _ _ _ _ H1 (li_una s I) Hseg Hnr) as (_ & _ & Afr & Ann).
-    destruct (r_ack_number r) as [a|] eqn:Hack; [|exfalso; apply Ann; [rewrite Hst; discriminate | rewrite Hst; discriminate | reflexivity]].
-    destruct Seq5 as (U5 & N5).
-    assert (Hau : u32 a) by (destruct Hseg as (_ & Hx & _); rewrite Hack in Hx; exact Hx).
-    destruct (ack_len_established s2 r al aof aall a Hst2 ltac:(rewrite C5; apply (li_una s I)) Hau Hack Hnr
-                ltac:(rewrite C5; apply Afr; reflexivity) Hal) as (-> & Hal0 & Hiff).
+    pose proof (li_tx s I) as ((Htx0 & _) & _).
+    destruct (ack_check_established _ _ _ _ _ Hst Hnr (li_una s I)
+                ltac:(split; [lia | change (2 ^ 31) with 2147483648; lia]) ltac:(apply Hseg) H1)
+      as (d & Hack & Hd).
+    rewrite Hack in Seq5. destruct Seq5 as (U5 & N5).
+    destruct (ack_len_established s2 r al aof aall d Hst2 ltac:(rewrite C5; apply (li_una s I))
+                ltac:(change (2 ^ 31) with 2147483648; lia) ltac:(rewrite C5; exact Hack) Hnr Hal) as (-> & Ed).
+    subst d.
     set (q5 := match r_timestamp r with
                | Some (tsval, _) => upd_last_remote_tsval s5 tsval
                | None => s5
@@ -509,12 +546,13 @@ Proof.
     pose proof (zwp_spec cx s6 al) as P7.
     destruct (tcp_process_zwp cx s6 al) as (s7, t7). cbn [fst] in P7.
     destruct P7 as ((G1 & _ & G3 & G4 & _) & Ft7).
-    obind_inv H. destruct a0 as ((s8, rep8), t8). rename E into H8.
+    obind_inv H. destruct a as ((s8, rep8), t8). rename E into H8.
     destruct (payload_core _ _ _ _ _ _ _ _ _ H8) as (P1 & P2' & _ & P4 & P5 & _).
     inversion H; subst s' reply tags; clear H.
     destruct (Z.eq_dec al 0) as [Eal | Nal].
     + (* nothing newly acknowledged *)
-      right. subst al. assert (Ea : a = s_local_seq_no s) by (rewrite <- C5; apply Hiff; reflexivity).
+      right. subst al. assert (Ea : sq (s_local_seq_no s + 0) = s_local_seq_no s)
+        by (symmetry; apply u32_sq_self; apply (li_una s I)).
       split; [rewrite P5, G4, F4, D51, U5; exact Ea|].
       split; [rewrite P4, G3, F3, D52, B5, (update_remote_tx_same _ _ _ _ _ _ H4 ltac:(lia)); exact C4|].
       rewrite P2', Ft7, Ft6, D53.
